@@ -313,3 +313,25 @@ func selectRecvValue(sel *ssa.Select, k int) ssa.Value {
 	}
 	return nil
 }
+
+// phiLeaves returns the non-φ values that can flow into ph through any chain of φ-nodes.
+func phiLeaves(ph *ssa.Phi) []ssa.Value {
+	seen := map[*ssa.Phi]bool{}
+	var out []ssa.Value
+	var walk func(p *ssa.Phi)
+	walk = func(p *ssa.Phi) {
+		if seen[p] {
+			return
+		}
+		seen[p] = true
+		for _, e := range p.Edges {
+			if q, ok := e.(*ssa.Phi); ok {
+				walk(q)
+			} else {
+				out = append(out, e)
+			}
+		}
+	}
+	walk(ph)
+	return out
+}
